@@ -15,6 +15,9 @@ Events (all on the real object, mirrored on the model):
         K    {X8, @8[base+off+1]}: byte 0 new, byte 1 a write-back
         R,d  a slice of the store's *current* answer for a wider cell: symbols.read(@(w+16)[base+off+d-1])[8:8+w]
              (d = 0 copies the cell onto itself, d > 0 is an overlapping memmove)
+        U,k  a NON byte-aligned slice of the current content of the destination cell itself: read(@(w+8)[base+off])[k:k+w]
+        V,k  the same taken from a cell starting one byte lower: read(@(w+16)[base+off-1])[8+k:8+k+w]
+             (read-modify-write such as `@32[p] = @32[p] >> 4` or a bit-field store: never a write-back)
         Z    the original memory of another base
   ("del", base, off, w)      del symbols[@w[base+off]]   (KeyError expected iff some byte is not stored)
   ("delp", base, off, w)     symbols.symbols_mem.delete_partial(@w[base+off])
@@ -22,7 +25,9 @@ Events (all on the real object, mirrored on the model):
   ("cp",)                    symbols.copy(), then the old object is scribbled on (aliasing test)
 
 Reference model: dict (base, offset mod 2^addrsize) -> byte descriptor, one of
-  ("id", name, byte index) / ("c", byte value) / ("o", base, offset): original memory byte.
+  ("id", name, byte index) / ("c", byte value) / ("o", base, offset): original memory byte /
+  ("u", 8 bit sources): a byte assembled from bits of identifiers / constants / original memory bytes (unaligned slices);
+  a byte that is bit for bit an original memory byte (identifier byte, constant) is normalised to that descriptor.
 A byte that is not in the dict reads as the original cell ("o", base, offset).
 
 Oracle after every event (invariant): for every (base, off, width) of the probe set
@@ -39,7 +44,7 @@ from mc.runner import violation
 PROP = "C13"
 LEVEL = "model_checking"
 ENGINE = "bfs"
-RULE = ("BFS over histories of writes (9 value kinds x widths 8..64 at the two last and two first offsets of the address space), "
+RULE = ("BFS over histories of writes (11 value kinds x widths 8..64 at the two last and two first offsets of the address space), "
         "full / partial deletions, state export->import into a fresh engine and copy(), on the real SymbolMngr for address sizes "
         "8 and 32 and bases integer / A / A+B; a state is distinct by (system, model byte dict, the store's own (offset, byte "
         "index, expression) table), i.e. the hidden grouping is part of the state")
@@ -128,10 +133,54 @@ def value(asz, base, off, vk, st=None):
             k = (base, (off + d + i) & mask)
             descs.append(st.model.get(k) or ("o", k[0], k[1]))
         return m.ExprSlice(cur, 8, 8 + w), descs
+    if kind in ("U", "V"):
+        # a NON byte-aligned slice of the store's current answer for a wider cell that covers the destination:
+        #   U,k  symbols.read(@(w+8)[base+off])[k:k+w]          V,k  symbols.read(@(w+16)[base+off-1])[8+k:8+k+w]
+        # byte i of the value is bits k..k+8 of the current bytes off+i, off+i+1: a read-modify-write (shift, bit field),
+        # never a write-back although it is a slice of the very cell it is stored into
+        k = vk[2]
+        if kind == "U":
+            cur = st.engine.symbols.read(m.ExprMem(ptr(asz, base, off), w + 8))
+            e = m.ExprSlice(cur, k, k + w)
+        else:
+            cur = st.engine.symbols.read(m.ExprMem(ptr(asz, base, off - 1), w + 16))
+            e = m.ExprSlice(cur, 8 + k, 8 + k + w)
+        descs = []
+        for i in range(n):
+            lo = (base, (off + i) & mask)
+            hi = (base, (off + i + 1) & mask)
+            descs.append(bit_slice(st.model.get(lo) or ("o", lo[0], lo[1]), st.model.get(hi) or ("o", hi[0], hi[1]), k))
+        return e, descs
     if kind == "Z":
         other = vk[2]
         return m.ExprMem(ptr(asz, other, off), w), [("o", other, (off + i) & mask) for i in range(n)]
     raise ValueError(vk)
+
+
+def desc_bits(d):
+    """The 8 bit sources of a byte descriptor: ("id", name, bit) / ("c", 0|1) / ("o", base, offset, bit)."""
+    if d[0] == "id":
+        return [("id", d[1], 8 * d[2] + b) for b in range(8)]
+    if d[0] == "c":
+        return [("c", (d[1] >> b) & 1) for b in range(8)]
+    if d[0] == "o":
+        return [("o", d[1], d[2], b) for b in range(8)]
+    return list(d[1])
+
+
+def bit_slice(lo, hi, k):
+    """Descriptor of bits k..k+8 of the little-endian byte pair (lo, hi), in normal form: a byte that is bit for bit an
+    identifier byte, a constant or an original memory byte is that descriptor again (shifting a copy back into place
+    yields the original cell, and the store is right to drop it), anything else is ("u", tuple of 8 bit sources)."""
+    bits = (desc_bits(lo) + desc_bits(hi))[k:k + 8]
+    b0 = bits[0]
+    if all(b[0] == "c" for b in bits):
+        return ("c", sum(b[1] << j for j, b in enumerate(bits)))
+    if b0[0] == "o" and b0[3] == 0 and all(b == ("o", b0[1], b0[2], j) for j, b in enumerate(bits)):
+        return ("o", b0[1], b0[2])
+    if b0[0] == "id" and b0[2] % 8 == 0 and all(b == ("id", b0[1], b0[2] + j) for j, b in enumerate(bits)):
+        return ("id", b0[1], b0[2] // 8)
+    return ("u", tuple(bits))
 
 
 # ----------------------------------------------------------------------------------------------- valuations
@@ -197,6 +246,18 @@ def desc_val(asz, d, vi):
         return (valuation_cached(asz, vi)[d[1]] >> (8 * d[2])) & 0xFF
     if d[0] == "c":
         return d[1]
+    if d[0] == "u":
+        v = 0
+        for j, b in enumerate(d[1]):
+            if b[0] == "c":
+                bit = b[1]
+            elif b[0] == "id":
+                bit = (valuation_cached(asz, vi)[b[1]] >> b[2]) & 1
+            else:
+                mask = (1 << asz) - 1
+                bit = (orig_mem(asz, (base_val(asz, b[1], valuation_cached(asz, vi)) + b[2]) & mask) >> b[3]) & 1
+            v |= bit << j
+        return v
     mask = (1 << asz) - 1
     return orig_mem(asz, (base_val(asz, d[1], valuation_cached(asz, vi)) + d[2]) & mask)
 
@@ -248,10 +309,12 @@ WRITES = [
     (-1, ("M", 16, 1)), (0, ("M", 16, -1)),
     (0, ("S", 8, 0)), (-1, ("S", 16, 1)),
     (-1, ("K", 16)), (-1, ("R", 16, 1)),
+    (0, ("U", 16, 4)),
 ]
 WRITES_MORE = [
     (1, ("X", 8)), (-2, ("X", 64)), (-2, ("Y", 16)), (1, ("C", 16)), (-2, ("M", 32, 1)), (0, ("K", 16)), (-1, ("S", 16, 0)),
     (0, ("O", 64)), (2, ("X", 32)), (0, ("R", 16, 0)), (-1, ("R", 8, 2)),
+    (-1, ("U", 32, 1)), (0, ("V", 8, 4)), (-1, ("V", 8, 4)), (-2, ("U", 8, 7)),
 ]
 DELS = [(-1, 16), (0, 8), (-2, 32)]
 DELS_MORE = [(1, 8), (-1, 8), (0, 16)]
@@ -423,7 +486,12 @@ def _split(st, p):
 def _fmt_model(st):
     out = []
     for (base, off), d in sorted(st.model.items()):
-        out.append("%s%+d:%s" % (BASE_NAME[base], off if off < (st.mask >> 1) else off - st.mask - 1, "".join(str(x) for x in d[:1]) + ":" + ",".join(str(x) for x in d[1:])))
+        if d[0] == "u":
+            txt = "bits[" + " ".join("%s%s.%d" % (b[0], b[1] if b[0] != "o" else "%s%+d" % (BASE_NAME[b[1]], b[2] if b[2] < (st.mask >> 1) else b[2] - st.mask - 1), b[-1])
+                                      if b[0] != "c" else str(b[1]) for b in d[1]) + "]"
+        else:
+            txt = "".join(str(x) for x in d[:1]) + ":" + ",".join(str(x) for x in d[1:])
+        out.append("%s%+d:%s" % (BASE_NAME[base], off if off < (st.mask >> 1) else off - st.mask - 1, txt))
     return "{" + " ".join(out) + "}"
 
 
@@ -432,7 +500,7 @@ def _pattern(st, reg):
     out = ""
     for k in reg:
         d = st.model.get(k)
-        c = "o" if d is None else {"id": "s", "c": "c", "o": "m"}[d[0]]
+        c = "o" if d is None else {"id": "s", "c": "c", "o": "m", "u": "u"}[d[0]]
         if not out or out[-1] != c:
             out += c
     return out
@@ -555,18 +623,17 @@ def _plan():
         if seed not in SEEDS:
             SEEDS.append(seed)
         PLAN[tier].append(SEEDS.index(seed))
-    # quick: depth 3 on three systems, depth 2 on the three others, depth 2 behind the three seeded stores
-    for asz, primary in ((8, SYM), (32, SUM), (32, INT)):
+    # quick: depth 3 on two systems, depth 2 on the four others, depth 2 behind the three seeded stores
+    for asz, primary in ((8, SYM), (32, SUM)):
         add("quick", (asz, primary, (), 3, False))
-    for asz, primary in ((8, INT), (8, SUM), (32, SYM)):
+    for asz, primary in ((32, INT), (8, INT), (8, SUM), (32, SYM)):
         add("quick", (asz, primary, (), 2, False))
     for asz, primary, pre in ((8, SYM, PRE1), (32, INT, PRE2), (32, SUM, PRE3)):
         add("quick", (asz, primary, pre, 2, False))
-    # thorough: depth 4 on every system (base menu), depth 3 with the extended menu, depth 3 behind six seeded stores
-    # (one search = one process; a depth-5 search is ~160k transitions in a single process: 14 min wall at load 150)
-    for asz in (8, 32):
-        for primary in (INT, SYM, SUM):
-            add("thorough", (asz, primary, (), 4, False))
+    # thorough: depth 4 on four systems (base menu), depth 3 with the extended menu on all six, depth 3 behind six seeded
+    # stores (one search = one process; sized for <= 15 min at load ~130: about 400k transitions)
+    for asz, primary in ((8, SYM), (8, SUM), (32, INT), (32, SUM)):
+        add("thorough", (asz, primary, (), 4, False))
     for asz in (8, 32):
         for primary in (INT, SYM, SUM):
             add("thorough", (asz, primary, (), 3, True))
